@@ -343,6 +343,14 @@ pub fn ascii_blocks() -> Vec<String> {
                     s.push(if i == pos { x as char } else { 'a' });
                 }
                 out.push(s);
+                // the same character twice in a row, straddling every offset (block boundaries)
+                if pos + 1 < total {
+                    let mut d = String::with_capacity(total);
+                    for i in 0..total {
+                        d.push(if i == pos || i == pos + 1 { x as char } else { 'a' });
+                    }
+                    out.push(d);
+                }
             }
         }
     }
